@@ -140,6 +140,15 @@ def r2_range_filter(repo=None, rid="C12.R2"):
                 if v is False:
                     if isinstance(par, ast.If) and a in par.orelse and _is_edge_membership(par.test):
                         continue
+                    # any other shape of the same decision: the path condition of the assignment excludes the membership
+                    mem = [c_ for an in _ancestors(rv, a) if isinstance(an, ast.If) for c_ in ast.walk(an.test) if _is_edge_membership(c_)]
+                    if mem:
+                        from .. import pybool, cbool
+                        pc = pybool.path_condition(a, rv.parents, f)
+                        M = pybool.truth(mem[0])
+                        ok_, _w = cbool.equivalent(cbool.conj([pc, M]), ("false",))
+                        if ok_:
+                            continue
                     if isinstance(par, ast.If) and not _mentions_list_ends(par.test):
                         raise AnalysisError("%s: condition `%s` under which is_edge is False not recognised" % (q, norm(ast.unparse(par.test))))
                     bad = a
@@ -373,7 +382,10 @@ def _isinstance_test(test, var, types):
 
 
 def _none_test(test):
-    """(var, +1) for `var is None`, (var, -1) for `var is not None`"""
+    """(var, +1) for `var is None`, (var, -1) for `var is not None`; `not <test>` flips the sign"""
+    if isinstance(test, ast.UnaryOp) and isinstance(test.op, ast.Not):
+        v, sg = _none_test(test.operand)
+        return v, -sg
     if isinstance(test, ast.Compare) and len(test.ops) == 1 and isinstance(test.left, ast.Name) and pyfront.const(test.comparators[0]) is None \
             and isinstance(test.comparators[0], ast.Constant):
         if isinstance(test.ops[0], ast.Is):
